@@ -10,7 +10,16 @@ From GV Require Import GoSpec.GoPrim Gen.ValueOps_gen Model.Call Proofs.C19_roun
 Import ListNotations.
 Open Scope Z_scope.
 
-(* 1. every value of a constructor's domain reads back unchanged through the matching accessor *)
+(* 1. every value of a constructor's domain reads back unchanged through the matching accessor.
+   Precisely:
+   - integers and booleans: for every value in the range of the Go parameter type;
+   - float64: for every payload of the form [Fn f] (every Go float64 is one).  fn_Float64 takes a [num];
+     on the model's other representation [Zn z] ("a float64 holding the integer z") the constructor
+     normalises the payload to Fn, so the round trip is the identity only up to num_same there
+     (Witness/NV_C19.v remark_c19_roundtrip_float_Zn) -- not claimed here;
+   - strings: the conjunct is about the PAYLOAD: the value String(s) holds the payload PStr s and the
+     payload reads back as s (as_str); there is no generated accessor Value_String in the statement, the
+     host-side reading v.String() is the printing function of C14. *)
 Theorem c19_roundtrip :
   (forall x, in_range I32 x = true -> Value_Int32 (fn_Int32 x) = x) /\
   (forall x, in_range U32 x = true -> Value_Uint32 (fn_Uint32 x) = x) /\
@@ -135,7 +144,11 @@ Proof.
         (conj (vm_func_wrong_args env) (vm_func_not_func env))))).
 Qed.
 
-(* natives and script functions have the frame property that c19_func asks for *)
+(* natives have the frame property that c19_func asks for, unconditionally; script functions have it
+   PROVIDED the body leaves exactly [rets] values whenever it succeeds (second premise: an assumption on
+   `code`, not derived from the compiler here).  The premise is
+   needed: a body leaving fewer values makes mkFunc take cells of the caller, and then no g gives frame_ok
+   (Witness/NV_C19.v remark_c19_frames_needs_rets). *)
 Theorem c19_frames :
   (forall argc rets n, frame_ok (NewFunc argc rets n) argc (lift n)) /\
   (forall args rets atys rtys code, 0 <= args -> (forall a outs, code a = Good outs -> slen outs = rets) ->
@@ -143,9 +156,13 @@ Theorem c19_frames :
        (fun a => outs <~ code (assign_zip atys a) ;; Good (assign_zip rtys outs))).
 Proof. exact (conj native_frame script_frame). Qed.
 
-(* 5. a bound method is the underlying function with the receiver inserted below the arguments
-   (every argument list, right or wrong in number); a variadic method packs its surplus arguments
-   exactly as the function does (one slice of the declared element type) *)
+(* 5. a bound method is the underlying function with the receiver inserted below the arguments.
+   Conjunct 1 (non-variadic underlying function): for EVERY argument list, right or wrong in number.
+   Conjuncts 2, 3 (variadic underlying function with >= 2 parameters): for argument lists that supply at
+   least the fixed parameters (slen fixed = Args f - 2, then any surplus, possibly empty): the method packs
+   the surplus exactly as the function does (one slice of the declared element type).  NOT covered: a
+   variadic method called with FEWER arguments than its fixed parameters (the error case; for plain
+   functions that is c19_call conjunct 5), and a variadic f with Args f = 1 (receiver-only). *)
 Theorem c19_method :
   (forall obj f lo args xRets, Variadic f = false -> 1 <= Args f ->
      call (lo ++ args) (newMethod obj f) (slen args) xRets =
@@ -159,7 +176,11 @@ Theorem c19_method :
 Proof. exact (conj method_call (conj method_call_variadic method_call_variadic_packed)). Qed.
 
 (* 6. errors surface: raised by the callback itself, raised by the callee of VM.Func, and raised
-   inside a script function that a native called through VM.Func (slices.SortFunc's shape) *)
+   inside a script function that a native called through VM.Func (slices.SortFunc's shape).
+   Conjunct 4: the nested native's closure captured the function table env (in which the inner function
+   hin lives); the table env2 in which the OUTER native is registered and called is ANY table (env2 = env
+   is the special case of the first version, whose premise `env hout = Some (NewFunc .. (nestedX env ..))`
+   was self-referential in env and, axiom-free, dischargeable by conversion only). *)
 Theorem c19_error :
   (forall argc rets n lo args xRets e, Variadic (NewFunc argc rets n) = false -> slen args = argc -> 0 <= xRets ->
      lift n args = Fail e -> call (lo ++ args) (NewFunc argc rets n) argc xRets = Fail e) /\
@@ -168,15 +189,18 @@ Theorem c19_error :
      call (lo ++ fixed ++ extra) (NewFunc argc rets (NNV f)) (slen fixed + slen extra) xRets = Fail e) /\
   (forall env h ft xRets params e, env h = Some ft -> Variadic ft = false -> slen params = Args ft ->
      Body ft params = Fail e -> vm_func env (CFn h) xRets params = Fail e) /\
-  (forall env hin k sel hout argc rets n lo args xRets e inner,
+  (forall env env2 hin k sel hout argc rets n lo args xRets e inner,
      env hin = Some inner -> Variadic inner = false -> slen (sel args) = Args inner ->
      Body inner (sel args) = Fail e ->
      (exists c, n = nested0 env hin k sel c) \/ (exists c, n = nested1 env hin k sel c) \/
      (exists c, n = nestedM env hin k sel c) ->
      slen args = argc -> 0 <= xRets ->
      call (lo ++ args) (NewFunc argc rets n) argc xRets = Fail e /\
-     (env hout = Some (NewFunc argc rets n) -> vm_func env (CFn hout) xRets args = Fail e)).
-Proof. exact (conj native_raise (conj variadic_raise (conj vm_func_fail nested_error))). Qed.
+     (env2 hout = Some (NewFunc argc rets n) -> vm_func env2 (CFn hout) xRets args = Fail e)).
+Proof.
+  exact (conj native_raise (conj variadic_raise (conj vm_func_fail
+        (fun env env2 hin k sel => nested_error env hin k sel env2)))).
+Qed.
 
 Print Assumptions c19_roundtrip.
 Print Assumptions c19_roundtrip_wide.
